@@ -8,24 +8,24 @@ LEVEL_NOTE = ("Trusted: Lean kernel (axioms propext, Classical.choice, Quot.soun
               "property oracles evaluated on the implementation's own output.")
 TECH = "Lean 4 theorems about an executable model + differential correspondence with the implementation"
 CLAIMS = {
- "C01": ("§7 C01", "resolver model (open recursion) with the closure theorem for every world, fuel and CLI (closure, closure_top over resolveTop); tie: ordered module lists and decisions of random projects vs the real CLI; closure oracle on the implementation's dump."),
- "C02": ("§7 C02", "exclusion invariant Excl proved preserved by every resolver step and lifted to resolveTop (excl_top, no_conflict_pair, unique_provider, top_no_disabled); tie: same campaign with raised conflict density; pairwise oracle on the dump with disables/provides_unique read from the YAML."),
+ "C01": ("§7 C01", "resolver model (open recursion) with the closure theorem for every world, fuel and CLI (closure, closure_top over resolveTop); tie: ordered module lists and decisions of random projects vs the real CLI; closure oracle on the implementation's dump; translator obligation on the snapshot / roll-back order of resolve_module_deep (C01_order)."),
+ "C02": ("§7 C02", "exclusion invariant Excl proved preserved by every resolver step and lifted to resolveTop (excl_top, no_conflict_pair, unique_provider, top_no_disabled); tie: same campaign with raised conflict density; pairwise oracle on the dump with disables/provides_unique read from the YAML; translator obligation: admission tests before registration, conflicts registered before the dependencies (C02_order)."),
  "C03": ("§7 C03", "generation model compared byte-for-byte (modulo hash renaming) with the real ninja file; theorems on link inputs / nearest rule / outfile; oracle parses the implementation's ninja file."),
- "C04": ("§7 C04", "global env = left fold of merges over built-ins, builder context env, module globals in reverse selection order, -D (global_env_spec), context env = fold along the chain (ctx_env_is_fold), module env = ((global + exports of the import closure) + notify) + local (module_env_spec), merge table and non-associativity; tie: dumped global/module envs + ninja file vs the model; oracle recomputes the documented formula from the dumped layers."),
+ "C04": ("§7 C04", "global env = left fold of merges over built-ins, builder context env, module globals in reverse selection order, -D (global_env_spec), context env = fold along the chain (ctx_env_is_fold), module env = ((global + exports of the import closure) + notify) + local (module_env_spec), merge table and non-associativity; tie: dumped global/module envs + ninja file vs the model; oracle recomputes the documented formula from the dumped layers; translator: today's EnvKey::merge arms, interpreted, equal the model's merge for every pair of values (envKey_merge_is_model)."),
  "C05": ("§7 C05", "local_no_leak / export_no_leak: buildEnv and moduleStep of every module outside the scope are unchanged by an edit of a module's local / export env (all selections); tie: model correspondence + metamorphic single-variable edits on the implementation comparing every out-of-scope compile statement byte for byte."),
- "C06": ("§7 C06", "well-formedness theorems on the model's entry list + strict ninja-subset parser oracle on multi-build files; three genuine defects recorded as known findings."),
+ "C06": ("§7 C06", "well-formedness theorems on the model's entry list incl. the modelled duplicate-output check (one_producer_per_output) + strict ninja-subset parser oracle on multi-build files (duplicate outputs, rules, statements without outputs, missing targets); translator obligation: every printed rule field is hashed; five genuine defects found by this check are repaired (dc15eeb, 99affe5)."),
  "C07": ("§7 C07", "object sharing theorems under HashOK + pairwise oracle over all builds of a file."),
- "C08": ("§7 C08", "cache protocol as a transition system with the invariant Inv proved preserved by every event incl. kill/fail and concurrent edits outside the parse-stat window (inv_next, cache_safe, hit_sound, never_accepted_after_edit, unchanged_is_served) and a negative witness for the pre-fix step order; tie: histories of runs / kills at 10 fault points / edits / binary swaps against the real binary, each event compared with the model, final run vs cold run oracle; partial: fsync/power loss, parse-stat window (known finding)."),
- "C09": ("§7 C09", "order-insensitivity theorems (merge_get, merge_perm, foldl_insertKeyed_perm) + translator obligation that every unordered container in /repo/src is in the reviewed table (decide +kernel) + repeated runs under 6 thread counts in fresh processes; partial: schedules and hash seeds are sampled."),
- "C10": ("§7 C10", "selection/partition theorems + metamorphic runs (subsets, every count:k/N partition, local mode from every directory) on the implementation."),
- "C15": ("§7 C15", "totality theorems on the model: configureBuild_no_panic, generate_no_panic, load_no_panic, load_no_hang_strong (the two remaining modelled failure points are unreachable), parent_cycle_rejected, empty_name_rejected + translator obligation that every unwrap/expect/panic!/index site in /repo/src is in the reviewed table (decide +kernel) + structural mutation fuzzing of projects and command lines through the real CLI; partial: serde_yaml/clap/host stack not modelled, YAML-level mutations are fuzzing."),
+ "C08": ("§7 C08", "cache protocol as a transition system with the invariant Inv proved preserved by every event incl. kill/fail and concurrent edits outside the parse-stat window (inv_next, cache_safe, hit_sound, never_accepted_after_edit, unchanged_is_served) and a negative witness for the pre-fix step order; tie: histories of runs / kills at 10 fault points / edits / binary swaps against the real binary, each event compared with the model, final run vs cold run oracle, near-miss key pairs, cache-disabled runs, import-edit scenarios; translators: step order of execute, tests of the cache reader, Selector::is_superset interpreted = model; partial: fsync/power loss, concurrent laze processes."),
+ "C09": ("§7 C09", "order-insensitivity theorems (merge_get, merge_perm, foldl_insertKeyed_perm) + translator obligation that every unordered container in /repo/src is in the reviewed table (decide +kernel) + the info export modelled (Model/Insights.lean) with theorems (insight_iff_built, moduleInfo_keys, insight_modules_perm, insightsOf_last) and compared key order included + repeated runs under 6 thread counts in fresh processes and in used build directories; partial: schedules and hash seeds are sampled."),
+ "C10": ("§7 C10", "selection/partition theorems + metamorphic runs (subsets, every count:k/N and hash:k/N partition, local mode from every directory; cold and in the build directory of the unrestricted run) on the implementation; translators: Selector::selects / is_superset interpreted = model, every printed rule field is hashed."),
+ "C15": ("§7 C15", "totality theorems on the model: configureBuild_no_panic, generate_no_panic, load_no_panic, load_no_hang_strong (the two remaining modelled failure points are unreachable), parent_cycle_rejected, empty_name_rejected + translator obligation that every unwrap/expect/panic!/index site in /repo/src is in the reviewed table (decide +kernel) + structural mutation fuzzing (22 kinds) of projects and command lines through the real CLI and three-step invocation sequences in one build directory; three panics found this way are repaired (165d73e, 611d4e8 and earlier); partial: serde_yaml/clap/host stack not modelled, YAML-level mutations are fuzzing."),
  "C16": ("§7 C16", "runnable_iff, runs_only_selected_runnable, refuses_several, build_first, keep_going (exact prefix characterisation), exit_code over the MainRun model for all build lists; tie: real CLI with stand-in ninja and sh that log cwd/exports/argv, compared with the model's spawn list + exit status; oracle from the dumped task availability; partial: process spawning/signals not modelled."),
  "C17": ("§7 C17", "loader model: process_removes law, defaults-as-prefix per field (Prefixed, defaults_vs_plain), context_list, duplicate/unknown rejection, work-list duplicate-freeness, var_options nearest-ancestor inheritance; two counterexamples recorded as known findings; tie: loader+generator model vs CLI on trees with subdirs/multi-doc/defaults/context lists + metamorphic inlining on the implementation."),
- "C18": ("§7 C18", "targets_within_selection, targets_exact_of_selector, targets_cover, passes_flags, no_ninja_with_G, rc_nonzero_iff, clean_argv over the MainRun model; tie: scenarios of wide-then-narrow runs (cache hits) with a stand-in ninja logging argv and scripted exit codes; partial: spawning itself not modelled."),
+ "C18": ("§7 C18", "targets_within_selection, targets_exact_of_selector, targets_cover, passes_flags, no_ninja_with_G, rc_nonzero_iff, clean_argv over the MainRun model; tie: scenarios of wide-then-narrow runs (cache hits), task runs, --compile-commands (runBuildCC), a 110 kB target list, with a stand-in ninja logging argv and scripted exit codes; translator: today's NinjaCmd::run, interpreted, passes exactly the model's ninjaArgv for every command value (ninjaCmd_run_is_model) + reviewed ninja_run setters / verdict / call sites; partial: spawning itself not modelled."),
  "C19": ("§7 C19", "build order topological (buildOrder_dep_before, buildOrder_global_before, buildOrder_perm), build-dep collection iff, order-only lists contain every registered file (moduleStmts_compile_deps), dep_cycle_drops for cycles of any length, link lists global deps; tie: ninja file vs model + oracle recomputing the users-closure from the dump."),
  "C20": ("§7 C20", "select_equiv and disable_equiv as whole-outcome equalities of configureBuild, define_parse (+ the V=a+=b quirk), define_equiv on global-env lookups; tie: model correspondence with these arguments + metamorphic flags vs LAZE_* env vs comma lists vs rewritten project on the implementation; partial: flag/env equivalence is clap behaviour (differential only)."),
- "C11": ("§7 C11", "allow/block decision (is_allowed) modelled in Lean; theorems: decision table over nearest listed ancestors, nearest = minimal depth, order independence under List.Perm (all trees, all lists). Tie: 40k random trees x lists vs the real ContextBag::is_allowed through the in-binary oracle, plus a model-independent decision table and a permutation metamorphic check on the implementation."),
- "C12": ("§7 C12", "L1 imperative machine with explicit snapshot stack proved to refine the pure resolver (l1_refines_l2, stack_balanced, failure_restores), optional failures invisible, first-reach order, shadowing, provider order; tie: ORDERED module lists vs the real CLI + shadowing oracle + optional-deletion metamorphic runs."),
+ "C11": ("§7 C11", "allow/block decision (is_allowed) modelled in Lean; theorems: decision table over nearest listed ancestors, nearest = minimal depth, order independence under List.Perm (all trees, all lists); translator: today's if/else tree of ContextBag::is_allowed, evaluated, equals isAllowedCore for every pair of lookups (is_allowed_tree_is_model). Tie: 40k random trees x lists vs the real ContextBag::is_allowed through the in-binary oracle, plus a model-independent decision table and a permutation metamorphic check on the implementation."),
+ "C12": ("§7 C12", "L1 imperative machine with explicit snapshot stack proved to refine the pure resolver (l1_refines_l2, stack_balanced, failure_restores), optional failures invisible, first-reach order, shadowing, provider order; tie: ORDERED module lists vs the real CLI + shadowing / provider-order oracles + optional-deletion metamorphic runs; translator obligation: the 36 tests and state effects of resolve_module_deep in reviewed order (resolve_steps_reviewed, snapshot_between_tests_and_registration, rollback_and_drop)."),
  "C13": ("§7 C13", "byte-level model of expand/eval in Lean; theorems: marker-free identity, typed errors only (never panic), termination within fuel for every map (fuel_suffices), self-reference cycle, exact single substitution, unknown-key policies. Tie: 42k grammar-generated strings x variable maps x policies vs the real expand/expand_eval/eval (evalexpr as a parameter table)."),
  "C14": ("§7 C14", "model of flatten_with_opts in Lean; theorems: closed form start ++ joinSep joiner (non-empty elements wrapped) ++ end for every list, empty list, from:, both-values-and-from error. Tie: 30k random envs x options vs the real Env::flatten_with_opts, plus a closed-form oracle written independently."),
 }
